@@ -374,15 +374,19 @@ def parallelRule (ty : String) : Except String (Option (Bool × Bool)) :=
 /-- `_series_span_is_private(aset)`: every node joining two members of the series set (an equipotential
     class met by at least two member terminals) is not the reference node and no component other than the
     members and wires is attached to any of its names (any terminal: control nodes of E/G, O, P, …) -/
-def spanPrivate (net : Net K) (aset : List String) : Bool :=
-  let cls := nodeClasses net
-  let nm := nodeMap cls
+def spanJoints (net : Net K) (aset : List String) : List String :=
+  let nm := nodeMap (nodeClasses net)
   let members := net.filter (fun e => aset.contains e.name)
   let keys := members.flatMap (fun e => (e.nodes.take 2).map nm)
-  let joints := (keys.filter (fun k => (keys.filter (· = k)).length ≥ 2)).eraseDups
-  joints.all (fun k =>
-    let names := match cls.find? (fun c => classKey c = k) with | some c => c | none => [k]
-    names.all (fun n =>
+  (keys.filter (fun k => (keys.filter (· = k)).length ≥ 2)).eraseDups
+
+/-- the node names of the equipotential class with key `k` -/
+def classNames (net : Net K) (k : String) : List String :=
+  match (nodeClasses net).find? (fun c => classKey c = k) with | some c => c | none => [k]
+
+def spanPrivate (net : Net K) (aset : List String) : Bool :=
+  (spanJoints net aset).all (fun k =>
+    (classNames net k).all (fun n =>
       !(n.startsWith "0") &&
       net.all (fun e => !(e.nodes.contains n) || aset.contains e.name || isWire e)))
 
